@@ -384,6 +384,11 @@ pub fn limiter_fairness_through_listener() -> Vec<(String, String, serde_json::V
         vec![x1.clone(), y1.clone(), x2.clone(), y2.clone(), x1.clone(), y1.clone(), z1.clone(), z1.clone(), z1.clone()],
         vec![x1.clone(), x2.clone(), x1.clone(), x2.clone(), y2.clone(), z1.clone(), y1.clone(), y2.clone()],
         vec![z1.clone(), z1.clone(), z1.clone(), z1.clone(), x1.clone(), y1.clone()],
+        // headers that announce nobody (v1 UNKNOWN, v2 LOCAL): if such a connection is served at all, then on the
+        // budget of the load balancer it came through - again and again, it uses that budget up like anybody else
+        vec![k(p1, "v1-unknown"), k(p1, "v1-unknown"), k(p1, "v1-unknown"), k(p1, "v1-unknown"), k(p1, "v2-local"), x1.clone()],
+        vec![k(p2, "v2-local"), k(p2, "v2-local"), k(p2, "v2-local"), k(p2, "v1-unknown"), k(p2, "v2-local"), k(p1, "v2-local"), y2.clone()],
+        vec![k(p1, "v1:127.0.0.1:4444"), k(p1, "v1-unknown"), k(p1, "v2-local"), k(p1, "v1-unknown"), k(p1, "v1:127.0.0.1:4445")],
     ];
     let mut out = vec![];
     for limit in [1usize, 2] {
